@@ -523,6 +523,53 @@ def k19(rep):
                           "program with exit status 0" % msg, detail={"cfg_path": p[:10]})
 
 
+def k20_digest(f):
+    base = f.unit.split("/")[-1]
+    out = []
+    for name, fn in f.funcs.items():
+        if "body" not in fn or not fn.get("file", "").endswith(base):
+            continue
+        if not any(c.get("callee") == name for c in calls(fn["body"])):
+            continue
+        big = []
+        for x in walk(fn["body"]):
+            if x["k"] == "DeclStmt":
+                for d in x.get("decls", []):
+                    if d.get("bound") and not d.get("static"):
+                        big.append((d["n"], d["bound"], d.get("t") or "", x["l"]))
+        out.append((name, big))
+    return out
+
+
+K20_MAX = 512
+
+
+def k20(rep):
+    """The parser gives up honestly at a nesting depth of 10000 (K16); the passes that walk the nested structure afterwards
+    recurse once per level on the C stack, and on an 8 MB stack that leaves them about 800 bytes a level.  A function that
+    calls itself and keeps a large automatic array (an I/O-sized scratch buffer for a trace message) multiplies that array by
+    the nesting depth of the input: 1100 nested blocks overflow the stack -- a signal, no diagnostic -- long before the parser's
+    limit.  No self-recursive function of the compiler has an automatic array of more than 512 elements."""
+    dig = common.map_units(common.compiler_units(), k20_digest, "compiler", all_trees=True)
+    n = 0
+    nbad = 0
+    for u in sorted(dig):
+        base = u.split("/")[-1]
+        for name, big in dig[u]:
+            n += 1
+            for arr, bound, t, line in big:
+                if bound > K20_MAX:
+                    nbad += 1
+                    rep.violation("K20", "recursive-frame-small:%s:%s" % (base, name), "%s:%d (%s)" % (base, line, name),
+                                  "%s calls itself and keeps the automatic array `%s` (%s) in every activation: each level of "
+                                  "nesting in the input costs that much stack, so a source nested a little over a thousand levels "
+                                  "deep ends in a stack overflow (signal 11, no diagnostic) although the parser accepts ten "
+                                  "thousand" % (name, arr, t))
+    rep.floor("self-recursive functions of the compiler", n, 250)
+    if nbad == 0:
+        rep.ok("K20", "recursive-frame-small", sample={"self-recursive functions": n})
+
+
 def both_digest(f):
     return {"k1": k1_digest(f), "exits": exits_digest(f), "k8": k8_digest(f)}
 
@@ -1043,6 +1090,7 @@ def run(tier, only=None):
     k17(rep)
     k18(rep)
     k19(rep)
+    k20(rep)
     from . import variant_dispatch
     variant_dispatch.report_absyn(rep, "K14", ["abnorm.c", "macex.c"], 15)
     from . import variadic
